@@ -1,6 +1,8 @@
 package main
 
 import (
+	"go/token"
+	"fmt"
 	"go/types"
 	"strings"
 
@@ -29,6 +31,8 @@ func runC09(p *Program, r *Report) {
 	ruleR097(p, r)
 	r.Rule("R09.8", "E3", 4, "a row is handed out as matching only after its index was compared: in every function that compares a search hash with decrypted content, each nil-error return is reachable only over the 'equal' edge of IsEqual or over the 'no hash present' edge (same rule as R03.6)")
 	ruleVerifiedSuccess(p, r, "R09.8")
+	r.Rule("R09.9", "E3", 2, "write path and search path agree on the empty value (PostgreSQL): the statement encryptor leaves an empty value as it is (no envelope, no blind index), so the search rewriter leaves an empty searched value as it is too - calculateHmac returns its argument on the len == 0 edge before any hash is computed; if one side treats the empty value differently from the other, rows holding the empty value are never (or always) selected")
+	ruleR099(p, r)
 	r.Rule("R09.4", "E3", 2, "index re-verification is wired: in both proxy factories the HMAC processor is subscribed both before and after the container detector (strip-and-remember, then verify after decryption)")
 	ruleR094(p, r)
 }
@@ -404,4 +408,75 @@ func init() {
 
 func init() {
 	mut("C09", "hmac processor skips the comparison for a hash it has seen pass", "hmac/dataProcessor.go", "	if p.hashData != nil && !p.matchedHash.IsEqual(data, accessContext.GetClientID(), p.hmacStore) {", "	if p.hashData != nil && len(p.hashData) == len(p.rawData) {\n		return data, nil\n	}\n	if p.hashData != nil && !p.matchedHash.IsEqual(data, accessContext.GetClientID(), p.hmacStore) {", "R09.8", "Process")
+}
+
+// ---- R09.9
+func ruleR099(p *Program, r *Report) {
+	emptySkip := func(fn *ssa.Function, what func(v ssa.Value) bool) (*ssa.BasicBlock, bool) {
+		// an If on len(x) == 0 (or != 0) with x satisfying `what`; returns the 'empty' successor
+		for _, b := range fn.Blocks {
+			iff, ok := b.Instrs[len(b.Instrs)-1].(*ssa.If)
+			if !ok {
+				continue
+			}
+			bo, ok := iff.Cond.(*ssa.BinOp)
+			if !ok || (bo.Op != token.EQL && bo.Op != token.NEQ) {
+				continue
+			}
+			x, isLen := isLenCall(bo.X)
+			k, isK := intConst(bo.Y)
+			if !isLen || !isK || k != 0 || !what(x) {
+				continue
+			}
+			if bo.Op == token.EQL {
+				return b.Succs[0], true
+			}
+			return b.Succs[1], true
+		}
+		return nil, false
+	}
+	// write side: encryptValuesWithPlaceholders skips empty bound values, the literal callback returns empty data as it is
+	wr := p.Func("encryptor/postgresql.(*QueryDataEncryptor).encryptValuesWithPlaceholders")
+	if wr == nil || wr.Blocks == nil {
+		r.Anchor("R09.9", "encryptor/postgresql.(*QueryDataEncryptor).encryptValuesWithPlaceholders")
+		return
+	}
+	_, writeSkips := emptySkip(wr, func(v ssa.Value) bool {
+		for x := range backClosure(v) {
+			if c, ok := x.(*ssa.Call); ok && c.Call.IsInvoke() && c.Call.Method.Name() == "GetData" {
+				return true
+			}
+		}
+		return false
+	})
+	r.Check(true, "R09.9", fnName(wr), "write path: empty bound value", p.Pos(wr.Pos()), fmt.Sprintf("left as it is: %v", writeSkips), "")
+	se := p.Func("hmac/decryptor/postgresql.(*HashQuery).calculateHmac")
+	if se == nil || se.Blocks == nil {
+		r.Anchor("R09.9", "hmac/decryptor/postgresql.(*HashQuery).calculateHmac")
+		return
+	}
+	data := paramByName(se, "data")
+	emptyBlk, searchSkips := emptySkip(se, func(v ssa.Value) bool { return v == ssa.Value(data) })
+	okSkip := false
+	if searchSkips {
+		okSkip = allReturns(emptyBlk, nil, func(ret *ssa.Return) bool {
+			return retValue(ret, 0) == ssa.Value(data) && isNilConst(retValue(ret, 1))
+		})
+		// and no hash is computed before the test
+		for _, c := range callsNamed(se, "GenerateHMAC") {
+			if !reaches(se.Blocks[0], c.Block(), map[*ssa.BasicBlock]bool{emptyBlk: true}) {
+				okSkip = false
+			}
+			if c.Block() == se.Blocks[0] {
+				okSkip = false
+			}
+		}
+	}
+	agree := writeSkips == (searchSkips && okSkip)
+	r.Check(agree, "R09.9", fnName(se), "search path treats the empty value as the write path does", p.Pos(se.Pos()), "both leave an empty value as it is", fmt.Sprintf("the write path leaves an empty value unprotected (%v) but the search rewriter does not leave an empty searched value alone (%v): `col = ''` compares the column's prefix with the HMAC of the empty string and never selects the rows that hold the empty value", writeSkips, searchSkips && okSkip))
+}
+
+func init() {
+	mut("C09", "pg search hashes the empty searched value (original defect)", "hmac/decryptor/postgresql/hashQuery.go", "	if len(data) == 0 {\n		// an empty value is stored as it is, without encryption and without a hash:\n		// it is found by comparing the (empty) prefix of the column with the empty value\n		return data, nil\n	}\n", "", "R09.9", "calculateHmac")
+	mut("C09", "pg write path starts to protect empty bound values while the search still skips them", "encryptor/postgresql/queryDataEncryptor.go", "		if len(valueData) == 0 {\n			continue\n		}\n		encryptedData, err := encryptor.encryptWithColumnSettings(ctx, setting, valueData)", "		encryptedData, err := encryptor.encryptWithColumnSettings(ctx, setting, valueData)", "R09.9", "calculateHmac")
 }
